@@ -7,6 +7,7 @@ import (
 	"errors"
 	"fmt"
 	"iter"
+	"slices"
 	"sort"
 	"strings"
 
@@ -105,10 +106,12 @@ func (a *Args) Iter() iter.Seq2[string, ipld.Node] {
 
 // ToIPLD wraps an instance of an Args with an ipld.Node.
 func (a *Args) ToIPLD() (ipld.Node, error) {
-	sort.Strings(a.Keys)
+	// sort a copy: this is a read-only operation, possibly concurrent with other readers
+	keys := slices.Clone(a.Keys)
+	sort.Strings(keys)
 
-	return qp.BuildMap(basicnode.Prototype.Any, int64(len(a.Keys)), func(ma datamodel.MapAssembler) {
-		for _, key := range a.Keys {
+	return qp.BuildMap(basicnode.Prototype.Any, int64(len(keys)), func(ma datamodel.MapAssembler) {
+		for _, key := range keys {
 			qp.MapEntry(ma, key, qp.Node(a.Values[key]))
 		}
 	})
@@ -131,12 +134,14 @@ func (a *Args) Equals(other *Args) bool {
 }
 
 func (a *Args) String() string {
-	sort.Strings(a.Keys)
+	// sort a copy: this is a read-only operation, possibly concurrent with other readers
+	keys := slices.Clone(a.Keys)
+	sort.Strings(keys)
 
 	buf := strings.Builder{}
 	buf.WriteString("{")
 
-	for _, key := range a.Keys {
+	for _, key := range keys {
 		buf.WriteString("\n\t")
 		buf.WriteString(key)
 		buf.WriteString(": ")
